@@ -55,11 +55,19 @@ type Agent struct {
 	statusLock sync.Mutex
 }
 
-// recordStatus writes the current status to the history.
-func (a *Agent) recordStatus() (*model.Status, error) {
+// recordStatus writes the current status to the history. The final status
+// is the last record of the run: nothing is recorded after it (the history
+// is closed soon afterwards).
+func (a *Agent) recordStatus(final bool) (*model.Status, error) {
 	a.statusLock.Lock()
 	defer a.statusLock.Unlock()
 	status := a.Status()
+	if a.finished.Load() {
+		return status, nil
+	}
+	if final {
+		a.finished.Store(true)
+	}
 	return status, a.historyStore.Write(status)
 }
 
@@ -149,7 +157,7 @@ func (a *Agent) Run(ctx context.Context) error {
 		}
 	}()
 
-	if _, err := a.recordStatus(); err != nil {
+	if _, err := a.recordStatus(false); err != nil {
 		a.logger.Error("Failed to write status", "error", err)
 	}
 
@@ -188,7 +196,7 @@ func (a *Agent) Run(ctx context.Context) error {
 	defer close(done)
 	go func() {
 		for node := range done {
-			status, err := a.recordStatus()
+			status, err := a.recordStatus(false)
 			if err != nil {
 				a.logger.Error("Failed to write status", "error", err)
 			}
@@ -205,7 +213,7 @@ func (a *Agent) Run(ctx context.Context) error {
 		if a.finished.Load() {
 			return
 		}
-		if _, err := a.recordStatus(); err != nil {
+		if _, err := a.recordStatus(false); err != nil {
 			a.logger.Error("Status write failed", "error", err)
 		}
 	}()
@@ -215,7 +223,7 @@ func (a *Agent) Run(ctx context.Context) error {
 	lastErr := a.scheduler.Schedule(dagCtx, a.graph, done)
 
 	// Update the finished status to the history database.
-	finishedStatus, err := a.recordStatus()
+	finishedStatus, err := a.recordStatus(true)
 	a.logger.Info("Workflow execution finished", "status", finishedStatus.Status)
 	if err != nil {
 		a.logger.Error("Status write failed", "error", err)
